@@ -179,6 +179,21 @@ impl RWAToken for Tok {
     }
 }
 
+/// one read-only entry point that reads the whole public state through the library getters
+/// (a trap in any of them makes the harness fall back to one try-call per getter)
+#[contractimpl]
+impl Tok {
+    pub fn obs(e: &Env, addrs: Vec<Address>) -> (bool, i128, Vec<(i128, i128, bool)>, Vec<i128>) {
+        let mut accts: Vec<(i128, i128, bool)> = Vec::new(e);
+        let mut allow: Vec<i128> = Vec::new(e);
+        for a in addrs.iter() {
+            accts.push_back((Base::balance(e, &a), RWA::get_frozen_tokens(e, &a), RWA::is_frozen(e, &a)));
+            for s in addrs.iter() { allow.push_back(Base::allowance(e, &a, &s)); }
+        }
+        (pausable::paused(e), Base::total_supply(e), accts, allow)
+    }
+}
+
 // ---------------------------------------------------------------- calls
 #[derive(Clone, Debug)]
 enum Op {
@@ -293,6 +308,7 @@ struct World {
     min_temp: u32,
     max_ttl: u32,
     items: std::vec::Vec<std::string::String>,
+    trapped_reads: u64,
 }
 
 impl World {
@@ -312,7 +328,7 @@ impl World {
         e.as_contract(&cmp, || e.storage().instance().set(&symbol_short!("tok"), &tok));
         let addrs: std::vec::Vec<Address> = (0..nu).map(|_| Address::generate(&e)).collect();
         let m = Mirror { bal: vec![0; nu], frz: vec![0; nu], flag: vec![false; nu], allow: vec![0; nu * nu], ..Default::default() };
-        World { e, tok, idv, cmp, addrs, m, min_temp, max_ttl, items: vec![] }
+        World { e, tok, idv, cmp, addrs, m, min_temp, max_ttl, items: vec![], trapped_reads: 0 }
     }
     fn nu(&self) -> usize { self.addrs.len() }
     fn idx(&self, a: &Address) -> u64 {
@@ -361,21 +377,49 @@ impl World {
         })
     }
 
-    /// full observation of the public state for the whole universe + the mocks' logs
+    /// a read that can never abort the harness: a trap in the code under test becomes None
+    fn try_get<T: TryFromVal<Env, Val>>(&self, f: &str, args: Vec<Val>) -> Option<T> {
+        match self.e.try_invoke_contract::<Val, soroban_sdk::Error>(&self.tok, &Symbol::new(&self.e, f), args) {
+            Ok(Ok(v)) => T::try_from_val(&self.e, &v).ok(),
+            _ => None,
+        }
+    }
+
+    /// full observation of the public state for the whole universe + the mocks' logs.
+    /// Every read is a try-call; a getter that traps yields a sentinel (-1) that diff and monitor flag.
     fn observe(&mut self) -> std::string::String {
-        let e = &self.e;
+        let e = &self.e.clone();
         let nu = self.nu();
         let mut m = self.m.clone();
-        e.as_contract(&self.tok, || {
-            m.paused = pausable::paused(e);
-            m.supply = Base::total_supply(e);
-            for i in 0..nu {
-                m.bal[i] = Base::balance(e, &self.addrs[i]);
-                m.frz[i] = RWA::get_frozen_tokens(e, &self.addrs[i]);
-                m.flag[i] = RWA::is_frozen(e, &self.addrs[i]);
-                for j in 0..nu { m.allow[i * nu + j] = Base::allowance(e, &self.addrs[i], &self.addrs[j]); }
+        let av: Vec<Address> = Vec::from_slice(e, &self.addrs);
+        match self.try_get::<(bool, i128, Vec<(i128, i128, bool)>, Vec<i128>)>("obs", (av,).into_val(e)) {
+            Some((p, sup, ac, al)) => {
+                m.paused = p;
+                m.supply = sup;
+                for i in 0..nu { let (x, y, zf) = ac.get(i as u32).unwrap(); m.bal[i] = x; m.frz[i] = y; m.flag[i] = zf; }
+                for k in 0..nu * nu { m.allow[k] = al.get(k as u32).unwrap(); }
             }
-        });
+            None => {
+                let none: Vec<Val> = Vec::new(e);
+                let mut trapped = false;
+                match self.try_get::<bool>("paused", none.clone()) { Some(p) => m.paused = p, None => trapped = true }
+                m.supply = self.try_get::<i128>("total_supply", none.clone()).unwrap_or(-1);
+                for i in 0..nu {
+                    let a = self.addrs[i].clone();
+                    m.bal[i] = self.try_get::<i128>("balance", (a.clone(),).into_val(e)).unwrap_or(-1);
+                    m.frz[i] = self.try_get::<i128>("get_frozen_tokens", (a.clone(),).into_val(e)).unwrap_or(-1);
+                    match self.try_get::<bool>("is_frozen", (a.clone(),).into_val(e)) { Some(f) => m.flag[i] = f, None => { m.flag[i] = false; m.frz[i] = -1; } }
+                    for j in 0..nu {
+                        m.allow[i * nu + j] = self.try_get::<i128>("allowance", (a.clone(), self.addrs[j].clone()).into_val(e)).unwrap_or(-1);
+                    }
+                }
+                if trapped { m.frz[0] = -1; }
+                self.trapped_reads += 1;
+            }
+        }
+        let none: Vec<Val> = Vec::new(e);
+        let cmp_set = self.try_get::<Address>("compliance", none.clone()).is_some();
+        let idv_set = self.try_get::<Address>("identity_verifier", none).is_some();
         let ilog: Vec<(u32, Address)> =
             e.as_contract(&self.idv, || e.storage().instance().get(&symbol_short!("log")).unwrap_or(Vec::new(e)));
         let clog: Vec<(u32, Address, Address, i128, bool)> =
@@ -396,7 +440,7 @@ impl World {
             }
         }).collect();
         self.m = m;
-        format!("(mkObs {} {} {} {} {} {})", b(self.m.paused), z(self.m.supply), list(&accts), list(&allow), list(&il), list(&cl))
+        format!("(mkObs {} {} {} {} {} {} {} {})", b(self.m.paused), z(self.m.supply), list(&accts), list(&allow), list(&il), list(&cl), b(cmp_set), b(idv_set))
     }
 
     /// execute one call with the exact authorisation set `auths` and the collaborators' answers `orc`
@@ -451,6 +495,7 @@ impl World {
         let univ: std::vec::Vec<_> = (0..self.nu()).map(|i| n(i as u64)).collect();
         let term = format!("mkTrace (Build_hostcfg {} {}) {} {}", self.min_temp, self.max_ttl, list(&univ), list(&self.items));
         let k = self.items.len();
+        if self.trapped_reads > 0 { out.label("observation/getter-trapped"); }
         out.trace(desc, term, k);
     }
 }
@@ -657,6 +702,49 @@ fn directed(out: &mut Out) {
     }
 }
 
+/// ledger gaps: short ones, and long ones during which nothing reads the state
+/// (a day is 17280 ledgers; the library extends persistent entries to 30 days = 518400 ledgers)
+fn long_gap(rng: &mut Rng) -> u32 {
+    match rng.below(12) {
+        0 => 0, 1 => 1, 2 => rng.below(40) as u32, 3 => rng.below(3000) as u32,
+        4 => 20, 5 => 100, 6 => 17_281, 7 => 20_000, 8 | 9 => 600_000, _ => 4_000_000,
+    }
+}
+
+/// every stored item of the token must survive a gap of any length during which nobody touches it
+fn persistence(out: &mut Out) {
+    let nu = 4;
+    let adm = 3usize;
+    for (min_temp, max_ttl) in [(1u32, MAXTTL), (16, 1_000_000), (16, 5000)] {
+        for gap in [20u32, 100, 17_281, 20_000, 600_000, 4_000_000] {
+            let mut w = World::new(nu, min_temp, max_ttl);
+            setup_std(&mut w, out, 5);
+            w.exec_plain(out, &Op::Mint(0, 100, adm));
+            w.exec_plain(out, &Op::Mint(1, 40, adm));
+            w.exec_plain(out, &Op::Freeze(0, 60, adm));
+            w.exec_plain(out, &Op::SetFrozen(1, true, adm));
+            let live = (w.m.now as u64 + gap as u64 + 10).min(w.m.now as u64 + max_ttl as u64 - 1) as u32;
+            w.exec_plain(out, &Op::Approve(0, 2, 50, live));
+            w.exec_plain(out, &Op::Pause(adm));
+            w.exec_plain(out, &Op::Advance(gap));            // ONE step; nothing is read in between
+            w.exec_plain(out, &Op::Transfer(0, 2, 1));       // still paused
+            w.exec_plain(out, &Op::Unpause(adm));
+            w.exec_plain(out, &Op::Transfer(1, 2, 1));       // 1 is still address-frozen
+            w.exec_plain(out, &Op::Transfer(2, 1, 0));
+            w.exec_plain(out, &Op::Transfer(0, 2, 41));      // 60 of 100 still frozen
+            w.exec_plain(out, &Op::TransferFrom(2, 0, 3, 30));   // allowance alive iff within its live_until
+            w.exec_plain(out, &Op::Transfer(0, 2, 10));
+            w.exec_plain(out, &Op::Advance(gap));
+            w.exec_plain(out, &Op::Forced(0, 2, 35, adm));   // must unfreeze exactly 35 - free
+            w.exec_plain(out, &Op::Mint(3, 5, adm));         // compliance / verifier links still there
+            w.exec_plain(out, &Op::Advance(gap));
+            w.exec_plain(out, &Op::Burn(1, 40, adm));
+            w.finish(out, &format!("persistence/temp{}-max{}/gap{}", min_temp, max_ttl, gap));
+            out.label("persistence/token");
+        }
+    }
+}
+
 fn pick_amount(rng: &mut Rng, around: &[i128]) -> i128 {
     match rng.below(20) {
         0 => 0,
@@ -670,7 +758,7 @@ fn pick_amount(rng: &mut Rng, around: &[i128]) -> i128 {
 
 fn random_trace(out: &mut Out, rng: &mut Rng, idx: usize, len: usize, nu: usize) {
     let min_temp = if rng.chance(1, 3) { 16 } else { 1 };
-    let max_ttl = if rng.chance(1, 4) { 5000 } else { MAXTTL };
+    let max_ttl = match rng.below(4) { 0 => 5000, 1 => 1_000_000, _ => MAXTTL };
     let mut w = World::new(nu, min_temp, max_ttl);
     let a0 = rng.below(300) as u32;
     w.exec_plain(out, &Op::Advance(a0));
@@ -701,6 +789,7 @@ fn random_trace(out: &mut Out, rng: &mut Rng, idx: usize, len: usize, nu: usize)
                     3 => (w.m.now as u64 + max_ttl as u64 - 1) as u32,
                     4 => (w.m.now as u64 + max_ttl as u64) as u32,
                     5 => u32::MAX,
+                    6 => (w.m.now as u64 + 700_000).min(w.m.now as u64 + max_ttl as u64 - 1) as u32,
                     _ => w.m.now + rng.below(40) as u32,
                 };
                 Op::Approve(x, s, pick_amount(rng, &[w.m.bal[x], 50]), live)
@@ -711,12 +800,12 @@ fn random_trace(out: &mut Out, rng: &mut Rng, idx: usize, len: usize, nu: usize)
             68..=73 => Op::Recover(x, y, o),
             74..=79 => Op::SetFrozen(y, rng.chance(3, 5), o),
             80..=86 => Op::Freeze(x, pick_amount(rng, &[w.free(x), w.m.bal[x] / 2]), o),
-            87..=91 => Op::Unfreeze(x, pick_amount(rng, &[w.m.frz[x]]), o),
-            92..=93 => Op::Pause(o),
-            94..=95 => Op::Unpause(o),
-            96 => Op::SetCompliance(o),
-            97 => Op::SetIdv(o),
-            _ => Op::Advance(match rng.below(4) { 0 => 0, 1 => 1, 2 => rng.below(40) as u32, _ => rng.below(3000) as u32 }),
+            87..=89 => Op::Unfreeze(x, pick_amount(rng, &[w.m.frz[x]]), o),
+            90..=91 => Op::Pause(o),
+            92..=93 => Op::Unpause(o),
+            94 => Op::SetCompliance(o),
+            95 => Op::SetIdv(o),
+            _ => Op::Advance(long_gap(rng)),
         };
         // authorisation subset: the needed signer, sometimes missing, sometimes with superfluous signers
         let mut au: std::vec::Vec<usize> = vec![];
@@ -813,6 +902,26 @@ mod cmpl {
         }
     }
 
+    /// one read-only entry point reading the whole public state through the library getters:
+    /// (module list per hook, is the token bound, does is_module_registered agree with the lists)
+    #[contractimpl]
+    impl Cmp {
+        pub fn cobs(e: &Env, tokens: Vec<Address>, modules: Vec<Address>) -> (Vec<Vec<Address>>, Vec<bool>, bool) {
+            let mut lists: Vec<Vec<Address>> = Vec::new(e);
+            let mut consistent = true;
+            for h in 0..5usize {
+                let v = cstore::get_modules_for_hook(e, hook(e, h));
+                for m in modules.iter() {
+                    if cstore::is_module_registered(e, hook(e, h), m.clone()) != v.contains(&m) { consistent = false; }
+                }
+                lists.push_back(v);
+            }
+            let mut bound: Vec<bool> = Vec::new(e);
+            for t in tokens.iter() { bound.push_back(token_binder::is_token_bound(e, &t)); }
+            (lists, bound, consistent)
+        }
+    }
+
     /// records, in one global sequence, every call received by any mock module
     #[contract]
     pub struct Rec;
@@ -903,6 +1012,7 @@ mod cmpl {
         Destroyed(usize, i128, usize),
         CanTransfer(usize, usize, i128, usize),
         CanCreate(usize, i128, usize),
+        Advance(u32),
     }
 
     pub const PARTY0: u64 = 0; // parties / operators are numbered 0..
@@ -914,7 +1024,7 @@ mod cmpl {
             match self {
                 COp::Add(..) => "c.add_module", COp::Remove(..) => "c.remove_module", COp::Bind(..) => "c.bind", COp::Unbind(..) => "c.unbind",
                 COp::Transferred(..) => "c.transferred", COp::Created(..) => "c.created", COp::Destroyed(..) => "c.destroyed",
-                COp::CanTransfer(..) => "c.can_transfer", COp::CanCreate(..) => "c.can_create",
+                COp::CanTransfer(..) => "c.can_transfer", COp::CanCreate(..) => "c.can_create", COp::Advance(..) => "c.advance",
             }
         }
         pub fn coq(&self) -> std::string::String {
@@ -931,6 +1041,7 @@ mod cmpl {
                 COp::Destroyed(f, a, tk) => format!("CDestroyed {} {} {}", p(f), z(a), t(tk)),
                 COp::CanTransfer(f, to, a, tk) => format!("CCanTransfer {} {} {} {}", p(f), p(to), z(a), t(tk)),
                 COp::CanCreate(to, a, tk) => format!("CCanCreate {} {} {}", p(to), z(a), t(tk)),
+                COp::Advance(k) => format!("CAdvance {}", k),
             }
         }
     }
@@ -949,13 +1060,21 @@ mod cmpl {
         pub items: std::vec::Vec<std::string::String>,
         pub mods: std::vec::Vec<std::vec::Vec<usize>>, // mirror of the hook lists
         pub bound: std::vec::Vec<bool>,
+        pub trapped_reads: u64,
     }
 
     impl CWorld {
-        pub fn new(nmods: usize) -> CWorld {
+        pub fn new(nmods: usize) -> CWorld { CWorld::with_ledger(nmods, 16, 6_312_000) }
+        pub fn with_ledger(nmods: usize, min_temp: u32, max_ttl: u32) -> CWorld {
             let e = Env::default();
             e.cost_estimate().budget().reset_unlimited();
             e.cost_estimate().disable_resource_limits();
+            e.ledger().with_mut(|l| {
+                l.sequence_number = 0;
+                l.min_temp_entry_ttl = min_temp;
+                l.min_persistent_entry_ttl = 4096.min(max_ttl);
+                l.max_entry_ttl = max_ttl;
+            });
             let cmp = e.register(Cmp, ());
             let rec = e.register(Rec, ());
             let parties: std::vec::Vec<Address> = (0..4).map(|_| Address::generate(&e)).collect();
@@ -965,7 +1084,7 @@ mod cmpl {
                 e.as_contract(&m, || e.storage().instance().set(&symbol_short!("rec"), &rec));
                 m
             }).collect();
-            CWorld { e, cmp, rec, parties, tokens, modules, items: vec![], mods: vec![vec![]; 5], bound: vec![false; 3] }
+            CWorld { e, cmp, rec, parties, tokens, modules, items: vec![], mods: vec![vec![]; 5], bound: vec![false; 3], trapped_reads: 0 }
         }
         fn num(&self, a: &Address) -> u64 {
             if let Some(i) = self.parties.iter().position(|x| x == a) { return PARTY0 + i as u64; }
@@ -978,23 +1097,29 @@ mod cmpl {
         fn observe(&mut self) -> std::string::String {
             let e = &self.e.clone();
             let mut lists: std::vec::Vec<std::string::String> = vec![];
-            let mut mirror = vec![];
-            let mut bound = self.bound.clone();
-            e.as_contract(&self.cmp, || {
-                for h in 0..5 {
-                    let v = cstore::get_modules_for_hook(e, hook(e, h));
-                    let mut xs: std::vec::Vec<_> = v.iter().map(|a| n(self.num(&a))).collect();
-                    // is_module_registered must agree with the list (a disagreement poisons the observation)
-                    for m in &self.modules {
-                        if cstore::is_module_registered(e, hook(e, h), m.clone()) != v.contains(m) { xs.push(n(999)); }
+            let tv: Vec<Address> = Vec::from_slice(e, &self.tokens);
+            let mv: Vec<Address> = Vec::from_slice(e, &self.modules);
+            let args: Vec<Val> = (tv, mv).into_val(e);
+            // a try-call: a trap in a getter of the code under test becomes a sentinel observation
+            let r = e.try_invoke_contract::<Val, soroban_sdk::Error>(&self.cmp, &Symbol::new(e, "cobs"), args);
+            let got = match r { Ok(Ok(v)) => <(Vec<Vec<Address>>, Vec<bool>, bool)>::try_from_val(e, &v).ok(), _ => None };
+            match got {
+                Some((ls, bs, consistent)) => {
+                    let mut mirror = vec![];
+                    for v in ls.iter() {
+                        let mut xs: std::vec::Vec<_> = v.iter().map(|a| n(self.num(&a))).collect();
+                        if !consistent { xs.push(n(999)); }
+                        mirror.push(v.iter().map(|a| self.num(&a).saturating_sub(MOD0) as usize).collect::<std::vec::Vec<usize>>());
+                        lists.push(list(&xs));
                     }
-                    mirror.push(v.iter().map(|a| (self.num(&a) - MOD0) as usize).collect::<std::vec::Vec<usize>>());
-                    lists.push(list(&xs));
+                    self.mods = mirror;
+                    for (i, x) in bs.iter().enumerate() { self.bound[i] = x; }
                 }
-                for (i, t) in self.tokens.iter().enumerate() { bound[i] = token_binder::is_token_bound(e, t); }
-            });
-            self.bound = bound;
-            self.mods = mirror;
+                None => {
+                    for _ in 0..5 { lists.push(list(&[n(999)])); }
+                    self.trapped_reads += 1;
+                }
+            }
             let log: Vec<(Address, u32, Address, Address, i128, Address)> =
                 e.as_contract(&self.rec, || e.storage().instance().get(&symbol_short!("log")).unwrap_or(Vec::new(e)));
             let ls: std::vec::Vec<_> = log.iter().map(|(m, k, a, bb, amt, tk)| {
@@ -1014,6 +1139,15 @@ mod cmpl {
         /// `via`: Some(k) = the call is made by the forwarder contract that is token k (only for notifications)
         pub fn exec(&mut self, out: &mut Out, op: &COp, auths: &[Who], deny: &[usize], via: Option<usize>) -> bool {
             let e = self.e.clone();
+            if let COp::Advance(k) = *op {
+                e.as_contract(&self.rec, || e.storage().instance().set(&symbol_short!("log"), &Vec::<(Address, u32, Address, Address, i128, Address)>::new(&e)));
+                e.ledger().with_mut(|l| l.sequence_number += k);
+                let obs = self.observe();
+                let call = format!("(mkCC ({}) [] [])", op.coq());
+                out.case("c.advance/ok", &call);
+                self.items.push(format!("CI {} (Ok None) {}", call, obs));
+                return true;
+            }
             // collaborators' answers + clear the recorder
             for (i, m) in self.modules.iter().enumerate() {
                 let d = deny.contains(&i);
@@ -1033,6 +1167,7 @@ mod cmpl {
                 COp::Destroyed(f, a, tk) => ("destroyed", (p(f), a, t(tk)).into_val(&e)),
                 COp::CanTransfer(f, to, a, tk) => ("can_transfer", (p(f), p(to), a, t(tk)).into_val(&e)),
                 COp::CanCreate(to, a, tk) => ("can_create", (p(to), a, t(tk)).into_val(&e)),
+                COp::Advance(_) => unreachable!(),
             };
             let who: std::vec::Vec<Address> = auths.iter().map(|&w| self.addr(w)).collect();
             let invs: std::vec::Vec<MockAuthInvoke> = who.iter().map(|_| MockAuthInvoke { contract: &self.cmp, fn_name: fname, args: args.clone(), sub_invokes: &[] }).collect();
@@ -1082,7 +1217,34 @@ mod cmpl {
             let toks: std::vec::Vec<_> = (0..self.tokens.len()).map(|i| n(TOK0 + i as u64)).collect();
             let term = format!("mkCTrace (Build_ccfg {}) {} {}", stellar_tokens::rwa::compliance::MAX_MODULES, list(&toks), list(&self.items));
             let k = self.items.len();
+            if self.trapped_reads > 0 { out.label("observation/getter-trapped"); }
             out.trace(desc, term, k);
+        }
+    }
+
+    /// module lists and token bindings must survive a gap of any length during which nobody touches them
+    pub fn persistence(out: &mut Out) {
+        for (min_temp, max_ttl) in [(1u32, 6_312_000u32), (16, 1_000_000), (16, 5000)] {
+            for gap in [20u32, 100, 17_281, 20_000, 600_000, 4_000_000] {
+                let mut w = CWorld::with_ledger(3, min_temp, max_ttl);
+                for md in [1usize, 0, 2] { w.exec_plain(out, &COp::Add(0, md, 3)); w.exec_plain(out, &COp::Add(3, md, 3)); }
+                w.exec_plain(out, &COp::Add(4, 2, 3));
+                w.exec_plain(out, &COp::Bind(0, 3));
+                w.exec_plain(out, &COp::Bind(1, 3));
+                w.exec_plain(out, &COp::Advance(gap));                           // ONE step; nothing is read in between
+                w.exec(out, &COp::Transferred(0, 1, 50, 0), &[], &[], Some(0));  // still bound, all three modules notified
+                w.exec(out, &COp::CanTransfer(0, 1, 50, 0), &[], &[2], None);    // the refusing module is still asked
+                w.exec_plain(out, &COp::Advance(gap));
+                w.exec(out, &COp::CanCreate(1, 5, 1), &[], &[2], None);
+                w.exec_plain(out, &COp::Transferred(0, 1, 7, 1));
+                w.exec_plain(out, &COp::Add(0, 0, 3));                           // still registered: refused
+                w.exec_plain(out, &COp::Bind(0, 3));                             // still bound: refused
+                w.exec_plain(out, &COp::Advance(gap));
+                w.exec_plain(out, &COp::Remove(0, 0, 3));
+                w.exec_plain(out, &COp::Unbind(1, 3));
+                w.finish(out, &format!("compliance/persistence/temp{}-max{}/gap{}", min_temp, max_ttl, gap));
+                out.label("persistence/compliance");
+            }
         }
     }
 
@@ -1144,7 +1306,8 @@ mod cmpl {
 
     pub fn random_trace(out: &mut Out, rng: &mut Rng, idx: usize, len: usize) {
         let nm = 4usize;
-        let mut w = CWorld::new(nm);
+        let (min_temp, max_ttl) = match rng.below(3) { 0 => (1, 6_312_000), 1 => (16, 1_000_000), _ => (16, 5000) };
+        let mut w = CWorld::with_ledger(nm, min_temp, max_ttl);
         let pre = rng.below(6);
         for _ in 0..pre { let (h, md) = (rng.below(5) as usize, rng.below(nm as u64) as usize); w.exec_plain(out, &COp::Add(h, md, 0)); }
         for tk in 0..3 { if rng.chance(2, 3) { w.exec_plain(out, &COp::Bind(tk, 0)); } }
@@ -1166,8 +1329,9 @@ mod cmpl {
                 42..=56 => COp::Transferred(pa(rng), pa(rng), amt, tk),
                 57..=64 => COp::Created(pa(rng), amt, tk),
                 65..=72 => COp::Destroyed(pa(rng), amt, tk),
-                73..=89 => COp::CanTransfer(pa(rng), pa(rng), amt, tk),
-                _ => COp::CanCreate(pa(rng), amt, tk),
+                73..=87 => COp::CanTransfer(pa(rng), pa(rng), amt, tk),
+                88..=94 => COp::CanCreate(pa(rng), amt, tk),
+                _ => COp::Advance(super::long_gap(rng)),
             };
             let mut auths: std::vec::Vec<Who> = vec![];
             let mut via = None;
@@ -1220,6 +1384,14 @@ mod idl {
 
         pub fn recovery_target(e: &Env, old_account: Address) -> Option<Address> {
             ivs::recovery_target(e, &old_account)
+        }
+
+        pub fn cti(e: &Env) -> Address {
+            ivs::claim_topics_and_issuers(e)
+        }
+
+        pub fn irs(e: &Env) -> Address {
+            ivs::identity_registry_storage(e)
         }
     }
 
@@ -1334,10 +1506,17 @@ mod idl {
     }
 
     impl IEnv {
-        pub fn new() -> IEnv {
+        pub fn new() -> IEnv { IEnv::with_ledger(16, 6_312_000) }
+        pub fn with_ledger(min_temp: u32, max_ttl: u32) -> IEnv {
             let e = Env::default();
             e.cost_estimate().budget().reset_unlimited();
             e.cost_estimate().disable_resource_limits();
+            e.ledger().with_mut(|l| {
+                l.sequence_number = 0;
+                l.min_temp_entry_ttl = min_temp;
+                l.min_persistent_entry_ttl = 4096.min(max_ttl);
+                l.max_entry_ttl = max_ttl;
+            });
             let idv = e.register(Idv, ());
             let irs = e.register(Irs, ());
             let cti = e.register(Cti, ());
@@ -1449,6 +1628,24 @@ mod idl {
             self.items.push(format!("II {} {} {}", call, outcome, "[]"));
         }
 
+        /// are the verifier's links to its registries still there (try-calls: a trap = not there)
+        pub fn links(&mut self, out: &mut Out) {
+            let e = &self.e;
+            let none: Vec<Val> = Vec::new(e);
+            let c = matches!(e.try_invoke_contract::<Val, soroban_sdk::Error>(&self.idv, &Symbol::new(e, "cti"), none.clone()), Ok(Ok(_)));
+            let r = matches!(e.try_invoke_contract::<Val, soroban_sdk::Error>(&self.idv, &Symbol::new(e, "irs"), none), Ok(Ok(_)));
+            let call = "(mkIC ILinks (mkIW [] [] [] []))".to_string();
+            out.case(&format!("i.links/{}", if c && r { "both" } else { "lost" }), &call);
+            self.items.push(format!("II {} (Ok (ILinked {} {})) []", call, b(c), b(r)));
+        }
+
+        pub fn advance(&mut self, out: &mut Out, k: u32) {
+            self.e.ledger().with_mut(|l| l.sequence_number += k);
+            let call = format!("(mkIC (IAdvance {}) (mkIW [] [] [] []))", k);
+            out.case("i.advance/ok", &call);
+            self.items.push(format!("II {} (Ok IUnit) []", call));
+        }
+
         pub fn finish(self, out: &mut Out, desc: &str) {
             let k = self.items.len();
             out.trace(desc, format!("mkITrace {}", list(&self.items)), k);
@@ -1499,11 +1696,31 @@ mod idl {
         x.recovery(out, &w, 0);
         x.recovery(out, &w, 1);
         x.finish(out, "identity/directed");
+        // the verifier's links to its registries must survive a gap of any length
+        for (min_temp, max_ttl) in [(1u32, 6_312_000u32), (16, 1_000_000), (16, 5000)] {
+            let mut x = IEnv::with_ledger(min_temp, max_ttl);
+            x.links(out);
+            for gap in [20u32, 100, 17_281, 20_000, 600_000, 4_000_000] {
+                x.advance(out, gap);                  // ONE step; nothing is read in between
+                x.links(out);
+                x.verify(out, &w, 0);
+                x.verify(out, &w, 1);
+                x.recovery(out, &w, 0);
+            }
+            x.finish(out, &format!("identity/persistence/temp{}-max{}", min_temp, max_ttl));
+            out.label("persistence/identity");
+        }
     }
 
     pub fn random_trace(out: &mut Out, rng: &mut Rng, idx: usize, len: usize) {
-        let mut x = IEnv::new();
+        let (min_temp, max_ttl) = match rng.below(3) { 0 => (1, 6_312_000), 1 => (16, 1_000_000), _ => (16, 5000) };
+        let mut x = IEnv::with_ledger(min_temp, max_ttl);
         while x.items.len() < len {
+            match rng.below(25) {
+                0 => { let k = super::long_gap(rng); x.advance(out, k); continue; }
+                1 => { x.links(out); continue; }
+                _ => {}
+            }
             let mut w = IWorld::default();
             for a in 0..4usize { if rng.chance(4, 5) { w.ident.push((a, rng.below(3) as usize)); } }
             let all_topics = [1u32, 2, 3, 4, 5];
@@ -1553,6 +1770,7 @@ fn main() {
     let scale = out.cfg.scale as usize;
 
     directed(&mut out);
+    persistence(&mut out);
     // the 2^7 gate vectors through both entry points
     let reps = if thorough { 4 } else { 1 };
     for _ in 0..reps {
@@ -1569,6 +1787,7 @@ fn main() {
     }
     // second layer: the real compliance contract with mock modules
     cmpl::directed(&mut out);
+    cmpl::persistence(&mut out);
     let nct = if thorough { 600 * scale } else { 40 * scale };
     for i in 0..nct {
         let l = 25 + rng.below(30) as usize;
